@@ -1,3 +1,4 @@
 import GraphSlam.Props.C06.Fixed
+import GraphSlam.Props.C03.Assembled
 
-/-! C06 — umbrella. -/
+/-! C06 — umbrella (`fixed_column_zero`, `fixed_diagonal_identity`: the reduced system, in `Props/C03/Assembled.lean`). -/
